@@ -6,6 +6,7 @@ package main
 import (
 	"fmt"
 	"os"
+	"time"
 )
 
 var cmds = map[string]func(tier string, r *rng){}
@@ -24,6 +25,13 @@ func main() {
 		fmt.Fprintln(os.Stderr, "unknown property", os.Args[1])
 		os.Exit(2)
 	}
+	// watchdog: a wedged case must not wedge the check
+	go func() {
+		time.Sleep(25 * time.Minute)
+		out.Flush()
+		fmt.Fprintln(os.Stderr, "hx: watchdog timeout")
+		os.Exit(3)
+	}()
 	r := &rng{s: seed()}
 	defer out.Flush()
 	f(tier, r)
